@@ -605,7 +605,13 @@ func TestVP_C41_NoHang(t *testing.T) {
 				vpC41DoDial(d, hosts[dl.host], dl)
 			}(dials[i])
 		}
-		wg.Wait()
+		allBack := make(chan struct{})
+		go func() { wg.Wait(); close(allBack) }()
+		select {
+		case <-allBack:
+		case <-time.After(vpC41LongTimeout + vpC41Overdue):
+			t.Fatalf("%d concurrent dials with timeout %v: not all of them had returned %v after that timeout expired", nd, vpC41LongTimeout, vpC41Overdue)
+		}
 		for i, dl := range dials {
 			h := hosts[dl.host]
 			if p := vpC41CheckDial(h, dl, i, false); p != "" {
@@ -654,6 +660,8 @@ type vpC41Sample struct {
 	at   time.Duration
 	conn map[string]bool
 }
+
+const vpC41Overdue = 15 * time.Second
 
 func TestVP_C41_Hang(t *testing.T) {
 	u := vpC41GetUniverse(t)
@@ -756,18 +764,43 @@ func TestVP_C41_Hang(t *testing.T) {
 				last = now
 			}
 		}()
-		var wg sync.WaitGroup
+		returned := make([]chan struct{}, len(dials))
+		var longest time.Duration
 		for i := range dials {
-			wg.Add(1)
-			go func(dl *vpC41Dial) {
-				defer wg.Done()
+			returned[i] = make(chan struct{})
+			longest = max(longest, dials[i].delay+dials[i].timeout)
+			go func(dl *vpC41Dial, done chan struct{}) {
+				defer close(done)
 				vpC41DoDial(d, hosts[dl.host], dl)
-			}(dials[i])
+			}(dials[i], returned[i])
 		}
-		wg.Wait()
+		// every dial has its own timeout: one that has not returned vpC41Overdue after the last of them
+		// should have fired never will (nominal: all return within the longest timeout + milliseconds)
+		overdue := time.NewTimer(longest + vpC41Overdue)
+		defer overdue.Stop()
+		var stuck []string
+		expired := false
+		for i := range dials {
+			if !expired {
+				select {
+				case <-returned[i]:
+					continue
+				case <-overdue.C:
+					expired = true
+				}
+			}
+			select {
+			case <-returned[i]:
+			default:
+				stuck = append(stuck, fmt.Sprintf("#%d (timeout %v, started at +%v)", i, dials[i].timeout, dials[i].delay))
+			}
+		}
 		stop.Store(true)
 		<-sdone
 		<-hdone
+		if len(stuck) > 0 {
+			t.Fatalf("TCPDialer{Concurrency:%d}, %d dials: dial(s) %s had not returned %v after the longest timeout (%v) expired; longest heartbeat gap %v", conc, nd, strings.Join(stuck, ", "), vpC41Overdue, longest, maxBeatGap.Round(time.Millisecond))
+		}
 		stalled := maxBeatGap > vpC41StallGap
 		if stalled {
 			vpExtra("hang_scenarios_with_process_stall_timing_not_judged", 1)
